@@ -11,7 +11,8 @@ WithAl(t, a) == [x \in DOMAIN t \cup {"al"} |-> IF x = "al" THEN a ELSE t[x]]
 NumV(k) == [k |-> "num", n |-> ToString(100 + k)]
 StrV(k) == [k |-> "str", n |-> "s" \o ToString(100 + k)]
 NegV(k) == [k |-> "num", n |-> "-" \o ToString(100 + k)]
-FltV(k) == [k |-> "flt", n |-> ToString(100 + k) \o ".5"]
+\* floats in both notations Python prints: 101.5 and 1.02e-07 (written 102e-09 here; the executor passes float(n))
+FltV(k) == [k |-> "flt", n |-> ToString(100 + k) \o (IF k % 2 = 0 THEN "e-09" ELSE ".5")]
 BoolV(k) == [k |-> "bool", v |-> (k % 2 = 0)]
 ArrV(k) == [k |-> "arr", items |-> <<NumV(k), NumV(k + 1)>>]
 ArrN(k) == [k |-> "arrn", items |-> <<NumV(k), NumV(k + 1)>>]     \* the executor puts a None between the two items
